@@ -6,6 +6,7 @@ verdicts: 'unsat' (obligation holds within the bounds of the encoding),
 """
 from __future__ import annotations
 
+import os
 import time
 from fractions import Fraction
 
@@ -210,6 +211,11 @@ def check(constraints, name="query", timeout_ms=20000, enc=None, logic="QF_NRA",
         if verdict != "unknown" or (time.time() - t1) * 1000 < 0.8 * budget:
             break
     dt = time.time() - t0
+    if verdict == "sat" and os.environ.get("VERIF_DUMP_SAT"):
+        # diagnosis aid: keep the text of every satisfiable query (a counterexample that does not replay can be re-examined)
+        os.makedirs(os.environ["VERIF_DUMP_SAT"], exist_ok=True)
+        with open(os.path.join(os.environ["VERIF_DUMP_SAT"], "%05d_%s.smt2" % (len(QUERY_LOG), "".join(ch if ch.isalnum() else "_" for ch in name)[:60])), "w") as fp:
+            fp.write(s.to_smt2() + "\n; model: %r\n" % (env,))
     QUERY_LOG.append(dict(name=name, verdict=verdict, seconds=round(dt, 4), logic=logic,
                           nvars=len(enc.zvars) if enc else None, nconstraints=len(constraints)))
     if CROSS["enabled"] and tactic is None:
